@@ -128,7 +128,7 @@ func runC12(c *Ctx) {
 	}
 
 	// (1) exhaustive grid at |IV|=12
-	keys := c.Q(1, 8)
+	keys := c.Q(1, 60)
 	for ki := 0; ki < keys; ki++ {
 		rk := c.Rng(fmt.Sprintf("grid-key%d", ki))
 		key, iv := rk.Bytes(16), rk.Bytes(12)
@@ -140,13 +140,13 @@ func runC12(c *Ctx) {
 	}
 	rep.Exhaustive(fmt.Sprintf("|A| x |P| grid 0..80 x 0..80 at |IV|=12 for %d keys", keys))
 	// (2) IV lengths 1..64, some A/P lengths
-	Par(64*c.Q(6, 40), func(i int) {
+	Par(64*c.Q(6, 400), func(i int) {
 		ivl := 1 + i%64
 		r := c.Rng(fmt.Sprintf("ivlen%d", i))
 		check(tc{cls: fmt.Sprintf("ivlen=%d", ivl), key: r.Bytes(16), iv: r.Bytes(ivl), a: r.Bytes(r.Pick(0, 1, 15, 16, 17, 20, 33)), p: r.Bytes(r.Pick(0, 1, 15, 16, 17, 31, 32, 33, 64, 100))})
 	})
 	// (3) IVs with 0xff bytes at every position (12-byte fast path: counter block = IV‖00000001)
-	Par(12*c.Q(4, 20), func(i int) {
+	Par(12*c.Q(4, 200), func(i int) {
 		r := c.Rng(fmt.Sprintf("ivff%d", i))
 		iv := r.Bytes(12)
 		iv[i%12] = 0xff
@@ -162,7 +162,7 @@ func runC12(c *Ctx) {
 	{
 		n := 0
 		for _, low := range []uint32{0xffffffff, 0xfffffffe, 0xfffffffd, 0xfffffff0, 0xffffff00, 0x0000ffff, 0x00ffffff, 0xfffeffff} {
-			for rep2 := 0; rep2 < c.Q(1, 4); rep2++ {
+			for rep2 := 0; rep2 < c.Q(1, 40); rep2++ {
 				r := c.Rng(fmt.Sprintf("wrap%x/%d", low, rep2))
 				key := r.Bytes(16)
 				var j0 [16]byte
@@ -186,12 +186,12 @@ func runC12(c *Ctx) {
 		rep.Count("counter_wrap_cases", int64(n))
 	}
 	// (5) long inputs
-	Par(c.Q(6, 60), func(i int) {
+	Par(c.Q(6, 400), func(i int) {
 		r := c.Rng(fmt.Sprintf("long%d", i))
 		check(tc{cls: "long", key: r.Bytes(16), iv: r.Bytes(12), a: r.Bytes(r.Pick(0, 13, 4096, 65536)), p: r.Bytes(r.Pick(1000, 4096, 16384, 65535, 65536))})
 	})
 	// (6) authentication sweep
-	Par(c.Q(24, 200), func(i int) {
+	Par(c.Q(24, 2000), func(i int) {
 		r := c.Rng(fmt.Sprintf("sweep%d", i))
 		ivl := 12
 		if i%4 == 3 {
